@@ -40,7 +40,22 @@ def make_maps(rng, t, inp, tagged):
     return pt, None, pieces, labels
 
 
-def fasta_case(rng, d, tagged=False, two_hap=False, t=None):
+def rename_scaffolds(inp, pt, mapping):
+    """rename input scaffolds (and their same-named contigs, and the Pretext rows that point at them)"""
+    for s in inp:
+        old = s[0]
+        if old in mapping:
+            s[0] = mapping[old]
+        for r in s[1]:
+            if r[0] == "F" and r[1] in mapping:
+                r[1] = mapping[r[1]]
+    for s in pt:
+        for r in s[1]:
+            if r[0] == "F" and r[1] in mapping:
+                r[1] = mapping[r[1]]
+
+
+def fasta_case(rng, d, tagged=False, two_hap=False, t=None, region_names=False):
     d = Path(d)
     d.mkdir(parents=True, exist_ok=True)
     t = t or gasm.pick_texel(rng, small=True)
@@ -56,6 +71,14 @@ def fasta_case(rng, d, tagged=False, two_hap=False, t=None):
         inp, l_in = gasm.gen_input(rng, t, mode="fasta", n_scaff=rng.randint(1, 6), max_contigs=6, max_texels=40)
         pt, design, pieces, labels = make_maps(rng, t, inp, tagged)
         labels |= l_in
+        if region_names:
+            # record names of the kind `samtools faidx` gives to extracted regions: chr7:1001-1200
+            mp = {s[0]: f"chr{k + 1}:{1000 * k + 1}-{1000 * k + 900}" for k, s in enumerate(inp) if rng.random() < 0.6}
+            rename_scaffolds(inp, pt, mp)
+            for pc in pieces or []:
+                if pc.get("s") in mp:
+                    pc["s"] = mp[pc["s"]]
+            labels.add("in:region-style-names")
     fa = fasta_bytes_for(rng, inp, crlf=rng.random() < 0.1)
     (d / "input.fa").write_bytes(fa)
     (d / "pretext.agp").write_text(gpv.pretext_agp_text(pt, t))
@@ -106,17 +129,19 @@ def text_case(rng, d, fmt="tpf", tagged=False, two_hap=False, t=None, mode=None,
     }
 
 
-def p2a_args(cr, out_name, extra=()):
-    args = ["-a", str(cr["assembly_file"]), "-p", str(cr["pretext_file"])]
+def p2a_args(cr, out_name, extra=(), relative_to=None):
+    rel = (lambda q: os.path.relpath(q, relative_to)) if relative_to else str
+    args = ["-a", rel(cr["assembly_file"]), "-p", rel(cr["pretext_file"])]
     if out_name:
-        args += ["-o", str(cr["dir"] / out_name)]
+        args += ["-o", rel(cr["dir"] / out_name)]
     if cr.get("prefix") and cr["prefix"] != "SUPER_":
         args += ["-c", cr["prefix"]]
     return args + list(extra)
 
 
-def run_pretext_to_asm(cr, out_name="out.fa", extra=(), inproc=True, hashseed="0", cwd=None, env_extra=None, keep_handlers=False):
-    args = p2a_args(cr, out_name, extra)
+def run_pretext_to_asm(cr, out_name="out.fa", extra=(), inproc=True, hashseed="0", cwd=None, env_extra=None, keep_handlers=False, relative=False):
+    # relative=True: the files are named relative to the working directory `cwd`
+    args = p2a_args(cr, out_name, extra, relative_to=(cwd or cr["dir"]) if relative else None)
     if inproc:
         import logging
 
